@@ -1,8 +1,15 @@
 /-
-  C18, proof side, tenth part: write-then-read for everything the writer emits, for ANY order of the
-  instances (the statements of an EBLIF file need not come in the writer's category order).
+  C18, proof side, tenth part: write-then-read for the writer's output on flat designs, for ANY order
+  of the instances (the statements of an EBLIF file need not come in the writer's category order).
+
+  Compared by the conclusion: instance kinds (parent, model, EBLIF.type) and order, `.cname/.attr/.param`
+  data, the truth tables of `.names` instances, the pins on every net bit, the top model's port list.
+  NOT compared (see docs/eblif.md): `Inst.unconn`, instance names when `write_eblif_cname` is off, the
+  ports of non-top definitions beyond `eblif_roundtrip_leaf_ports` (port/bit sets when no pin dangles;
+  `leaf_port_shrinks` shows they are NOT preserved in general; directions are not compared), netlist
+  name / top / comments / `.clock`.
 -/
-import Spydr.Eblif.AnyMain
+import Spydr.Eblif.DefsMain
 
 namespace Spydr.Eblif
 
@@ -23,25 +30,66 @@ theorem eblif_roundtrip_any_order (o : Opts) (n : BNet) (t : String) (hw : WellN
       (∀ j : Nat, (n'.insts[j]?).map infoOf =
         ((kidsFull n t)[j]?).map (fun k => (if o.writeCname then some k.1.name else none, k.1.attrs, k.1.params))) ∧
       (∀ y k, OnNet n' y k ↔ ∃ x, Renames (kidsFull n t) x y ∧ OnNet n x k) ∧
-      (n'.findDef t).ports = insPorts (n.findDef t) ++ pureOuts (n.findDef t) :=
-  roundtrip_any o n t hw hf hn hnm hbp
+      (n'.findDef t).ports = insPorts (n.findDef t) ++ pureOuts (n.findDef t) ∧
+      n'.insts.map (·.covers) = (kidsFull n t).map covOfKid := by
+  obtain ⟨n', h, a, b, c, d⟩ := roundtrip_any o n t hw hf hn hnm hbp
+  exact ⟨n', h, a, b, c, d, roundtrip_covers o n t hw hf n' h⟩
+
+/-- the truth tables: `covOfKid k` is the child's own `covers` when `n` stores cover rows the way the
+    reader does (`CoversNF`, decidable: words joined by single blanks, none on non-`.names` instances) -/
+theorem eblif_roundtrip_covers (o : Opts) (n : BNet) (t : String) (hw : WellNamed n) (hf : FragFull n t)
+    (hc : CoversNF n) (n' : BNet) (h : readB (composeText o n) = Except.ok n') :
+    n'.insts.map (·.covers) = (kidsFull n t).map (fun k => k.1.covers) := by
+  rw [roundtrip_covers o n t hw hf n' h]
+  apply List.map_congr_left
+  intro k hk
+  have hm : k ∈ n.insts.zipIdx := by
+    unfold kidsFull at hk
+    simp only [List.mem_append, List.mem_filter] at hk
+    rcases hk with ((h | h) | h) | h <;> exact h.1.1
+  exact covOfKid_nf n hc k (mem_zipIdx_fst hm)
+
+/-- **truth tables are read faithfully, all inputs** -/
+theorem eblif_covers_read (text : List Char) (n : BNet) (h : readB text = Except.ok n) :
+    ∃ a, parseB (lexB text) = Except.ok a ∧
+      n.insts.map (·.covers) = a.models.flatMap (fun m => m.body.flatMap stmtCov) := covers_read text n h
+
+/-- **whatever the reader accepts is self-contained** -- text level, all inputs -/
+theorem eblif_self_contained_text (text : List Char) (n : BNet) (h : readB text = Except.ok n) :
+    (n.defs.map (·.name)).Nodup ∧
+    (∀ i ∈ n.insts, (∃ d ∈ n.defs, d.name = i.model) ∧ ∃ d ∈ n.defs, d.name = i.parent ∧ d.declared = true) ∧
+    (∀ c ∈ n.cables, ∃ d ∈ n.defs, d.name = c.1.1 ∧ d.declared = true) := self_contained_text text n h
+
+theorem eblif_undeclared_leaf_text (text : List Char) (n : BNet) (h : readB text = Except.ok n)
+    (d : DefD) (hd : d ∈ n.defs) (hu : d.declared = false) : isLeaf n d.name = true ∧ d.inWork = false :=
+  undeclared_leaf_text text n h d hd hu
+
+/-- exact connectivity, text level.  `modelsAcc` is threaded through the elaborator (computed alongside
+    `elabModel`); it is a bookkeeping of the declared joins, not an independent specification. -/
+theorem eblif_onNet_exact_text (text : List Char) (n : BNet) (h : readB text = Except.ok n) :
+    ∃ a st, parseB (lexB text) = Except.ok a ∧ elabModels {} a.models = Except.ok st ∧
+      ∀ p k, OnNet n p k ↔ ∃ k', (p, k') ∈ modelsAcc {} [] a.models ∧ st.alias k' = k := onNet_exact_text text n h
 
 /-- the order-preserving case is a special case of the hypotheses -/
 theorem netOKA_of_netOKF (n : BNet) (t : String) (h : NetOKF n t) : NetOKA n t :=
   ⟨by rw [h.1], h.2⟩
 
-/-- non-vacuity: `exFull` with its instances in the order names, latch, subckt -/
+/-- non-vacuity: `exFull` with its instances in the order names, latch, gate, subckt -/
 def exAny : BNet :=
   { exFull with
     insts := [{ parent := "t", name := "g1", model := "logic-gate_2", typ := "EBLIF.names", covers := some ["11 1"],
                 pins := [("in_0", 0), ("in_1", 0), ("out", 0)] },
               { parent := "t", name := "l1", model := "generic-latch", typ := "EBLIF.latch",
                 pins := [("input", 0), ("output", 0), ("type", 0), ("control", 0)] },
+              { parent := "t", name := "g2", model := "G", typ := "EBLIF.gate", cname := some "g2",
+                params := [("p", "1")], pins := [("X", 0), ("X", 1), ("Y", 0)] },
               { parent := "t", name := "u1", model := "B", typ := "EBLIF.subckt", cname := some "u1",
                 attrs := [("k", "v")], pins := [("I", 0), ("O", 0)] }],
-    cables := [(("t", "a"), [[Pin.top "t" "a" 0, Pin.inst 2 "I" 0, Pin.inst 0 "in_0" 0]]),
+    cables := [(("t", "a"), [[Pin.top "t" "a" 0, Pin.inst 3 "I" 0, Pin.inst 0 "in_0" 0]]),
+               (("t", "b"), [[Pin.top "t" "b" 0, Pin.inst 2 "X" 0], [Pin.top "t" "b" 1, Pin.inst 2 "X" 1]]),
                (("t", "io"), [[Pin.top "t" "io" 0, Pin.inst 0 "in_1" 0]]),
-               (("t", "w"), [[Pin.inst 2 "O" 0, Pin.inst 1 "input" 0]]),
+               (("t", "w"), [[Pin.inst 3 "O" 0, Pin.inst 1 "input" 0]]),
+               (("t", "gy"), [[Pin.inst 2 "Y" 0]]),
                (("t", "n1"), [[Pin.inst 0 "out" 0, Pin.top "t" "y" 0]]),
                (("t", "q"), [[Pin.inst 1 "output" 0, Pin.top "t" "q" 0]]),
                (("t", "re"), [[Pin.inst 1 "type" 0]]),
@@ -53,6 +101,62 @@ example : WellNamed exAny ∧ NetOKA exAny "t" ∧ ¬ NetOKF exAny "t" ∧ Names
 
 set_option maxRecDepth 100000 in
 set_option maxHeartbeats 4000000 in
-example : (kidsFull exAny "t").map (·.2) = [2, 0, 1] := by decide
+example : (kidsFull exAny "t").map (·.2) = [3, 2, 0, 1] ∧ CoversNF exAny ∧ CoversNF exFull := by decide
+
+/-- **the interfaces of the instantiated definitions survive write-then-read** when no instance pin
+    dangles: for every child, the definition it instantiates has in the re-read netlist exactly the
+    (port, bit) pairs it has in `n` (same port names, same widths).  Extra hypotheses, all decidable:
+    the pin mirror of `n` (what `pin_mirror` proves for every netlist the reader produces),
+    `NoDangling n` (every instance pin sits on a wire; needed, see `leaf_port_shrinks`), `BBWide`
+    (ports of black-box definitions have a pin).  Port DIRECTIONS of non-top definitions are not
+    compared (a definition without a black-box block comes back with UNDEFINED directions). -/
+theorem eblif_roundtrip_leaf_ports (o : Opts) (n : BNet) (t : String) (hw : WellNamed n) (hf : FragFull n t)
+    (hn : NetOKA n t) (hnm : NamesOK o n) (hbp : BBPlain n t) (hpm : n.PinMirror) (hdg : NoDangling n)
+    (hbw : BBWide n t) (n' : BNet) (h : readB (composeText o n) = Except.ok n') :
+    ∀ k ∈ kidsFull n t, ∀ pn b,
+      (pn, b) ∈ allPins (n'.findDef k.1.model) ↔ (pn, b) ∈ allPins (n.findDef k.1.model) :=
+  roundtrip_leaf_ports o n t hw hf hn hnm hbp hpm hdg hbw n' h
+
+set_option maxRecDepth 100000 in
+set_option maxHeartbeats 4000000 in
+example : exAny.PinMirror ∧ NoDangling exAny ∧ BBWide exAny "t" ∧ exFull.PinMirror ∧ NoDangling exFull ∧ BBWide exFull "t" := by
+  decide
+
+/-! ### the ports of non-top definitions are NOT always preserved
+
+  A leaf definition whose bus port has its upper bits unconnected on every instance comes back
+  narrower: the writer emits `J[1]=unconn J[0]=unconn`, and `parse_subcircuit_port` gives a port at
+  most one more pin per formal while `connect_instance_pins` skips `unconn` actuals, so `J` ends with
+  one pin.  (Same behaviour of the implementation: docs/eblif.md.)  The netlist below satisfies every
+  hypothesis of `eblif_roundtrip_any_order` and the pin mirror, and its re-read has `B.J` of width 1. -/
+
+def exShrink : BNet :=
+  { name := some "t", top := some "t", comments := [],
+    defs := [{ name := "t", ports := [{ name := "y", dir := Dir.out, width := 1 }], declared := true },
+             { name := "B", ports := [{ name := "J", dir := Dir.undef, width := 2 }, { name := "O", dir := Dir.undef, width := 1 }] }],
+    insts := [{ parent := "t", name := "u", model := "B", typ := "EBLIF.subckt", cname := some "u",
+                unconn := ["J[0]", "J[1]"], pins := [("J", 0), ("J", 1), ("O", 0)] }],
+    cables := [(("t", "y"), [[Pin.inst 0 "O" 0, Pin.top "t" "y" 0]])] }
+
+/-- (port name, width) list of definition `dn` in a read result; empty when the read failed -/
+def portsAfter (r : Except Err BNet) (dn : String) : List (String × Nat) :=
+  match r with
+  | Except.ok n' => (n'.findDef dn).ports.map (fun p => (p.name, p.width))
+  | Except.error _ => []
+
+set_option maxRecDepth 100000 in
+set_option maxHeartbeats 4000000 in
+theorem leaf_port_shrinks :
+    WellNamed exShrink ∧ NetOKA exShrink "t" ∧ NamesOK {} exShrink ∧ BBPlain exShrink "t" ∧ exShrink.PinMirror ∧
+    BBWide exShrink "t" ∧ ¬ NoDangling exShrink ∧
+    ((exShrink.findDef "B").ports.map (fun p => (p.name, p.width)) = [("J", 2), ("O", 1)]) ∧
+    portsAfter (readB (composeText {} exShrink)) "B" = [("J", 1), ("O", 1)] := by decide
+
+theorem exShrink_frag : FragFull exShrink "t" := by
+  refine ⟨rfl, by decide, by decide, by decide, ?_⟩
+  intro i hi r hr
+  have hall : ∀ i ∈ exShrink.insts, coverRows i = [] := by decide
+  rw [hall i hi] at hr
+  cases hr
 
 end Spydr.Eblif
